@@ -482,3 +482,19 @@ def update_pipeline_bounded(ctx):
                 "fresh calculation of a copy stripped of every underscore entry (rtol 1e-9; same exception class if both raise)",
                 res["cases"], witness=res["witness"],
                 replay={"handler": "bounded", "input": inp, "expected": "results agree"} if not res["ok"] else None)
+
+
+# ---------------------------------------------------------------------------------------------
+# reuse_internal_data / only_update_hydraulic_matrix: the cached structure is read only when its reuse was requested and
+# never survives a run that did not request it (shared with C12: a stale cache changes what a later run computes)
+
+@unit("C07", "cache/no_stale_read", functions=["pandapipes.pipeflow:pipeflow"], engine="E4")
+def cache_stale(ctx):
+    from contracts.C12 import stale_reads
+    stale_reads(ctx)
+
+
+@unit("C07", "cache/dropped_on_every_exit", functions=["pandapipes.pipeflow:hydraulics", "pandapipes.pipeflow:bidirectional"], engine="E1")
+def cache_drop(ctx):
+    from contracts.C12 import cache_dropped
+    cache_dropped(ctx)
